@@ -42,10 +42,10 @@ ASSUMPTIONS = [
     "a message is used only if the real decoder round-trips it when complete (keeps the check independent of C01/C02)",
     "enums are not generated (fcp.serde has no enum support); element types of dynamic arrays have non-zero minimum size",
     "work = python line events inside src/fcp/serde.py; budget 20000 + 2000 x len(input); address space may grow by at most 96 MiB during one decode",
-    "struct fields are declared in ascending id (declaration order vs id order is C15's business)",
+    "both the Python codec and the reference codec walk struct fields in declaration order (id order vs declaration order is C15's business); ids may be out of order",
 ]
 TIERS = {
-    "quick": {"runs": 800, "chunk": 10, "wall": 110, "chunk_timeout": 300, "selftest": 6, "values": 4},
+    "quick": {"runs": 640, "chunk": 8, "wall": 90, "chunk_timeout": 300, "selftest": 6, "values": 4},
     "thorough": {"runs": 12000, "chunk": 30, "wall": 800, "chunk_timeout": 600, "selftest": 8, "values": 6},
 }
 ISOLATE_RUNS = True
@@ -291,7 +291,8 @@ def gen_type(rng, depth, structs_so_far, allow_var=True, prefer=None):
             opts.append(("struct", 1.5 if allow_var else 4))
     k = weighted(rng, opts)
     if k == "int":
-        w = weighted(rng, [(8, 4), (16, 2), (32, 2), (64, 2), (rng.randint(1, 64), 6), (1, 1), (7, 1), (63, 1)])
+        w = weighted(rng, [(8, 4), (16, 2), (32, 2), (64, 2), (rng.randint(1, 64), 6), (1, 1), (7, 1), (63, 1),
+                           (rng.randint(65, 99), 0.5)])        # the grammar takes two digits: u65..u99 exist
         return [rng.choice("ui"), w]
     if k == "float":
         return [rng.choice(["f32", "f64"])]
@@ -302,7 +303,8 @@ def gen_type(rng, depth, structs_so_far, allow_var=True, prefer=None):
     if k == "opt":
         return ["opt", gen_type(rng, depth + 1, structs_so_far, allow_var, prefer)]
     if k == "arr":
-        return ["arr", gen_type(rng, depth + 1, structs_so_far, allow_var, prefer), rng.randint(1, 4)]
+        size = weighted(rng, [(rng.randint(1, 4), 8), (rng.choice([31, 32, 33, 40, 64]), 0.6 if depth == 1 else 0)])
+        return ["arr", gen_type(rng, depth + 1, structs_so_far, allow_var if size < 10 else False, prefer), size]
     if prefer and rng.random() < 0.6:
         return ["struct", rng.choice(prefer)]      # the same nested struct type again (accel: Vec3, gyro: Vec3)
     name = rng.choice(structs_so_far)
@@ -332,6 +334,10 @@ def gen_schema(rng):
         if not fixed_only and rng.random() < 0.45:
             fields[-1]["type"] = weighted(rng, [(["str"], 3), (["dyn", ["u", 8]], 1), (["dyn", ["str"]], 1),
                                                  (["opt", ["str"]], 1), (["arr", ["str"], 2], 1)])
+        if rng.random() < 0.25 and len(fields) > 1:
+            # ids not in declaration order: the Python codec (and the reference codec here) walk the fields as declared
+            for f, i_ in zip(fields, rng.sample(range(0, 2 * len(fields) + 1), len(fields))):
+                f["id"] = i_
         name = f"Rec{S.PASCAL[words[si]]}{si}"
         decls.append({"kind": "struct", "name": name, "fields": fields})
         names.append(name)
@@ -357,7 +363,7 @@ def gen_value(rng, t, structs, depth=0):
         return rng.choice([0.0, 1.0, -1.0, rng.uniform(-1e12, 1e12), 5e-324, float("-inf")])
     if k == "str":
         n = weighted(rng, [(0, 2), (1, 2), (rng.randint(2, 12), 5), (rng.randint(13, 40), 1.5), (rng.randint(100, 300), 0.3),
-                           (rng.choice([255, 256, 257, 511, 512, 513, 1024, 2048]), 0.25)])
+                           (rng.choice([255, 256, 257, 511, 512, 513, 1024]), 0.1)])
         alphabet = "abcdefghijklmnopqrstuvwxyz ABCXYZ0123456789_-\x00\x7f"
         return "".join(rng.choice(alphabet) for _ in range(n))
     if k == "struct":
@@ -628,11 +634,14 @@ def run_one(seed: int, index: int, tier: str) -> dict:
             if len(data) > 400:
                 stats["long_message"] += 1
             n = len(data)
+            if n > 2600:
+                stats["message_too_long_for_the_budget"] += 1      # decode cost is ~53 traced lines per byte per delivery
+                continue
             if n <= 400:
                 flist = [["cut", k] for k in range(n)]           # every byte boundary
             else:
                 # a long message: every boundary near the ends and around each wire element boundary, a stride elsewhere
-                ks = set(range(0, 24)) | set(range(n - 40, n)) | set(range(0, n, 37))
+                ks = set(range(0, 16)) | set(range(n - 32, n)) | set(range(0, n, max(37, n // 40)))
                 for a, b, kind in spans:
                     if kind in ("str_prefix", "dyn_prefix", "opt_flag", "float"):
                         ks |= set(range(max(0, a // 8 - 2), min(n, b // 8 + 3)))
